@@ -23,7 +23,7 @@ class Deadlock(BaseException):
 
 
 class _T:
-    __slots__ = ("name", "fn", "thread", "go", "state", "pred", "deadline", "wake", "prio",
+    __slots__ = ("name", "fn", "thread", "go", "state", "pred", "deadline", "wake", "prio", "timed_out",
                  "result", "error", "where", "steps")
 
     def __init__(self, name, fn):
@@ -36,6 +36,7 @@ class _T:
         self.deadline = None
         self.wake = None
         self.prio = 0.0
+        self.timed_out = False
         self.result = None
         self.error = None
         self.where = None
@@ -56,6 +57,8 @@ class Sched:
         self.switches = 0
         self.max_steps = max_steps
         self.deadlock = None
+        self.p_jump = 0.0   # probability per dispatch that runnable threads are "descheduled" until the next timeout
+        self.jumps = 0
         self.killed = False
         self.done_evt = _real_threading.Event()
         self.trace: list[int] = []  # chosen thread index at each switch (fingerprint)
@@ -125,6 +128,14 @@ class Sched:
                     out.append(t)
         return out
 
+    def _mark_timeouts(self) -> None:
+        """A timed wait whose deadline passes while its condition is false has timed out - even if the condition becomes
+        true before the thread gets to run again (threading.Condition.wait returns False in that case)."""
+        for t in self.threads:
+            if (t.state == "blocked" and t.deadline is not None and t.deadline <= self.clock + EPS
+                    and not t.timed_out and not t.pred()):
+                t.timed_out = True
+
     def _choose(self, cands, me):
         if len(cands) == 1:
             return cands[0]
@@ -170,6 +181,17 @@ class Sched:
                     raise Deadlock()
                 return
             self.clock = min(times)
+            self._mark_timeouts()
+        if self.p_jump and self.rng.random() < self.p_jump:
+            # every runnable thread loses the CPU until the earliest pending timeout is due: the timed wait is over
+            # (with a timeout) while the others are in the middle of whatever they were doing
+            dl = [t.deadline for t in self.threads if t.state == "blocked" and t.deadline is not None
+                  and t.deadline > self.clock + EPS]
+            if dl:
+                self.clock = min(dl)
+                self._mark_timeouts()
+                self.jumps += 1
+                cands = self._enabled()
         nxt = self._choose(cands, me)
         self.trace.append(self.threads.index(nxt))
         if nxt is me:
@@ -233,6 +255,7 @@ class Sched:
                 self.clock = min(times)
             return True
         me.state = "blocked"
+        me.timed_out = False
         me.pred = pred
         me.deadline = deadline
         me.wake = wake
@@ -245,6 +268,9 @@ class Sched:
             me.pred = None
             me.deadline = None
             me.wake = None
+        if me.timed_out:
+            me.timed_out = False
+            return False
         return pred()
 
     def sleep(self, d: float) -> None:
@@ -329,7 +355,8 @@ class ShimThreading:
                 s.yield_point("event.wait")
                 if not self.flag:
                     stats["event_blocked"] += 1
-                    s.block_until(lambda: self.flag, timeout)
+                    if not s.block_until(lambda: self.flag, timeout):
+                        return False  # timed out - even if set() came in just afterwards
                 return self.flag
 
         class Semaphore:
